@@ -127,6 +127,11 @@ K("C03", "K03-i64-order", "c03_i64_to_u64_order_roundtrip", crate="tantivy-commo
 K("C03", "K03-f64-order", "c03_f64_to_u64_order_roundtrip", crate="tantivy-common", timeout=60,
   title="f64 <-> u64 mapping is order preserving on non-NaN values (incl. +-0, infinities) and bit-exact back",
   functions=["common::f64_to_u64", "common::u64_to_f64"], bounds="all non-NaN pairs", assumes=["inputs are not NaN"], checks="full")
+K("C03", "K03-inter4-count", "c03_intersection4_count_dense", timeout=1200, mem=20,
+  unwindset=GO_FIRST + [("and_blocks_and_return_is_empty", 18), (r"count_including_deleted_denseB9_\.0$", 4), (r"count_including_deleted_denseB9_\.1$", 18), (r"count_including_deleted_denseB9_\.2$", 3)],
+  title="4-way Intersection::count_including_deleted (dense block path, two `others`) = |A∩B∩C∩D|: every clause filters",
+  functions=["Intersection::{new,count_including_deleted,count_including_deleted_dense}", "and_blocks_and_return_is_empty", "DocSet::fill_bitset_block (default)"],
+  bounds="4 leaves x 2 docs, ids < 32, 32-document segment (dense path)", assumes=[ARR])
 K("C03", "K03-inter-count", "c03_intersection_count", tiers="t", timeout=900, unwindset=GO_FIRST + [("and_blocks_and_return_is_empty", 18)],
   title="Intersection::count_including_deleted (sparse and dense block paths) = |A∩B|",
   functions=["Intersection::count_including_deleted{,_sparse,_dense}", "DocSet::fill_bitset_block (default)"],
@@ -265,6 +270,15 @@ K("C12", "K12-reqopt-score", "c13_reqopt_prog2", timeout=120, title="required/op
 K("C15", "K15-vint", "c15_sstable_vint_roundtrip", crate="tantivy-sstable", timeout=120, title="sstable VInt round trip; trailing bytes untouched", functions=["sstable::vint::serialize", "deserialize_read"], bounds="all u64; unwind 12")
 K("C15", "K15-prefix", "c15_common_prefix_len", crate="tantivy-sstable", timeout=120, title="common_prefix_len is the longest common prefix", functions=["sstable::common_prefix_len"], bounds="byte strings <= 3")
 K("C15", "K15-separator", "c15_separator_key_contract", crate="tantivy-sstable", timeout=400, title="block-index separator key: left <= key < right, not longer than left", functions=["index::find_shorter_str_in_between"], bounds="all byte strings <= 3 with left < right; unwind 6")
+K("C15", "K15-separator-refuses", "c15_separator_refuses_unordered_pair", crate="tantivy-sstable", timeout=400,
+  title="keys are compared across block boundaries: shortening the previous block's last key against a next key that is not strictly greater panics (no silent acceptance of duplicates / out-of-order keys as first key of a block)",
+  functions=["index::find_shorter_str_in_between"], bounds="all byte strings <= 3 bytes with left >= right; unwind 6",
+  expected_panics=[r"sstable/src/index/mod\.rs:\d+ .*find_shorter_str_in_between"])
+K("C15", "K15-range-slice", "c15_file_slice_for_range_covers_needed_blocks", crate="tantivy-sstable", timeout=600,
+  title="bounded range streaming: the file slice chosen for a key range (with or without `limit`) covers every block that can hold one of the wanted keys",
+  functions=["Dictionary::file_slice_for_range", "index::v2::SSTableIndex::{locate_with_key,locate_with_ord,get_block}", "FileSlice::{slice,read_bytes}"],
+  bounds="dictionary written down directly: v2 block index of 3 blocks, symbolic 1-byte separator keys, byte ranges and first ordinals; symbolic 1-byte bounds of every kind (lower <= upper), optional limit < 10^6; the file handle records the requested byte range",
+  assumes=["non-inverted range (a sorted map panics on an inverted one)"])
 K("C15", "K15-order", "c15_insert_key_enforces_order", crate="tantivy-sstable", timeout=900,
   title="Writer::insert_key never silently accepts a key that is not strictly greater than the previous one",
   functions=["sstable::Writer::{new,insert,insert_key,insert_value}", "DeltaWriter::write_suffix"], bounds="two keys of <= 2 bytes; unwind 6",
